@@ -22,7 +22,7 @@ META = {
     "ready": True,
     "category": "proof",
     "technique": "Lean 4 model of steel's syntax-rules machinery (pattern compilation, match_list_pattern, collect_bindings, definition-time ## renaming, ReplaceExpressions, Expander) + R7RS/Kohlbecker specification; theorems about matching/instantiation (incl. agreement of steel's matcher and instantiator with the R7RS ones), positive binder-hygiene, scoping and referential-transparency theorems by induction over the model's own functions, the guarded hygiene statement with decided negation witnesses; differential runs real SteelMacro / real Engine vs model vs specification (single programs, multi-evaluation histories on one engine that continue after failing expansions, module chains x multi-unit histories), with the guard G evaluated by the driver on every program; translator obligation bindings_cleared_before_match (translate/c13_clears.py: the three thread-local binding maps are cleared before collect_bindings, as the model assumes)",
-    "level_text": "Proved for all patterns / forms / programs (SteelVerif/C13/Props.lean, induction, no bounds): match_exact, match_complete, match_literal, expand_fuel_mono. Positive hygiene: introduced_binders_fresh (every binder position of a stored template is spelled ##..., distinct from every identifier of a macro use); the hypothesis that source identifiers never begin with ## is checked on the REAL reader on every run (generated ## stream; the lemma reader_rejects_double_hash on the C12 lexer model lives in C13/ReaderHash.lean, outside the audited set, so that C13 does not depend on the state of C12's sources); expansion_names (one expansion step only produces identifiers of the use's arguments, non-binder atoms of the stored template, or ##-names; also evaluated on the REAL expansion of every unit case); hygiene_user_binders / hygiene_user_binders_src (the same invariant for whole programs: nested uses, recursion, expansion to fixed point, NO guard); user_forms_not_captured and user_form_meaning_unchanged (the resolution of a user identifier and the canonical form of a user sub-form do not depend on the ##-binders in scope); template_free_ids_resolve_globally (under G.a a template's free identifier resolves to the definition-site global); scoping_under_Gd (when flag d is not raised, every ##-name that occurs in a stored template outside the lexical scope of every binder of its spelling is a mangled pattern variable: template-introduced ##x only occur in the scope of a binder ##x - alignment of the renaming's single unscoped state with lexical scoping, all templates). Agreement with R7RS: match_spec (for EVERY well-formed pattern list - nesting, literals, constants, one ellipsis per list over any sub-pattern, dotted tails - steel's match_list_pattern + collect_bindings succeeding implies the R7RS matcher succeeds with the same bindings, steel's nested lists being the flattening of the binding trees); instantiate_agree / instantiate_spec_partial / instantiate_total (on templates in which every ellipsis follows an identifier, at most one per list, any nesting and improper lists, steel's ReplaceExpressions and the R7RS instantiator agree up to the expander flags; success direction: if steel's succeeds and the variables are used at the depth of their binding trees, the R7RS one succeeds with the specification's fuel). canon_of_related / alpha_of_related (the hygienic-renaming relation FR between what steel's expander and the ideal expander produce - user identifiers equal, ##s related to s%k by the INNERMOST ##s binder in scope so that several template instances of one spelling are covered, flagged free identifiers related to s%k when nothing captures them, lambda and let binders pairwise - implies equal canonical forms, hence alphaEq; what remains for single-level and nested hygiene is to show that the two expansions ARE related). G_iff (G = conjunction of the seven negated class predicates K13a,b,c,d,f,g,j); not_hygiene_a..d,j: the full statement is false, one decided witness per violated conjunct (j: a template list with two ellipses - found through the case split of instantiate_agree, replayed on the real engine). STILL NOT proved: hygiene_partial (G prog -> M expansion alpha-equivalent to the ideal expansion S; kept as HygienePartial) and the full InstantiateSpec: missing are the instantiator agreement for sub-templates followed by an ellipsis and the success direction, the correspondence stored template (##-names, flags) vs stamped template together with the canon simulation for one instance (single-level hygiene), and the simulation between the ##-names of several instances and S's per-step stamps under G.b. Inside G the full statement rests on the differential run: real SteelMacro vs model (exact expansion text) and vs R7RS specification on generated pattern/form pairs, real Engine vs model vs specification (values that reveal which binding each identifier resolved to) on generated programs; any real != S inside G is a VIOLATION.",
+    "level_text": "Proved for all patterns / forms / programs (SteelVerif/C13/Props.lean, induction, no bounds): match_exact, match_complete, match_literal, expand_fuel_mono. Positive hygiene: introduced_binders_fresh (every binder position of a stored template is spelled ##..., distinct from every identifier of a macro use); the hypothesis that source identifiers never begin with ## is checked on the REAL reader on every run (generated ## stream; the lemma reader_rejects_double_hash on the C12 lexer model lives in C13/ReaderHash.lean, outside the audited set, so that C13 does not depend on the state of C12's sources); expansion_names (one expansion step only produces identifiers of the use's arguments, non-binder atoms of the stored template, or ##-names; also evaluated on the REAL expansion of every unit case); hygiene_user_binders / hygiene_user_binders_src (the same invariant for whole programs: nested uses, recursion, expansion to fixed point, NO guard); user_forms_not_captured and user_form_meaning_unchanged (the resolution of a user identifier and the canonical form of a user sub-form do not depend on the ##-binders in scope); template_free_ids_resolve_globally (under G.a a template's free identifier resolves to the definition-site global); scoping_under_Gd (when flag d is not raised, every ##-name that occurs in a stored template outside the lexical scope of every binder of its spelling is a mangled pattern variable: template-introduced ##x only occur in the scope of a binder ##x - alignment of the renaming's single unscoped state with lexical scoping, all templates). Agreement with R7RS: match_spec (for EVERY well-formed pattern list - nesting, literals, constants, one ellipsis per list over any sub-pattern, dotted tails - steel's match_list_pattern + collect_bindings succeeding implies the R7RS matcher succeeds with the same bindings, steel's nested lists being the flattening of the binding trees); instantiate_agree / instantiate_spec_partial / instantiate_total (on templates in which every ellipsis follows an identifier, at most one per list, any nesting and improper lists, steel's ReplaceExpressions and the R7RS instantiator agree up to the expander flags; success direction: if steel's succeeds and the variables are used at the depth of their binding trees, the R7RS one succeeds with the specification's fuel). canon_of_related / alpha_of_related (the hygienic-renaming relation FR between what steel's expander and the ideal expander produce - user identifiers equal, ##s related to s%k by the INNERMOST ##s binder in scope so that several template instances of one spelling are covered, flagged free identifiers related to s%k when nothing captures them, lambda and let binders pairwise - implies equal canonical forms, hence alphaEq; what remains for single-level and nested hygiene is to show that the two expansions ARE related). Towards that, for ellipsis-free templates: stored_vs_stamped_template (the stored template of a compiled case is related to the written template stamped with the step number: ##a ~ a for pattern variables, ##s ~ s%k, flagged s ~ s%k), instantiate_stored_vs_stamped_flat (instantiating related templates with agreeing bindings gives related forms: user forms equal up to flags, ##s opposite s%k, same structure) and single_step_flat (both assembled for one expansion step of a case with a flat pattern (_ a1 ... an): the R7RS matcher succeeds and the results are related); the target HygieneSingleLevelFlat is kept as a statement - missing are the passage from that relation to FR (user binding forms well formed, every ##s under its binder in canon's scoping - scoping_under_Gd gives it for lexical scoping of the stored template -, NoCapture from G.a/G.d) and the program-level traversal. G_iff (G = conjunction of the seven negated class predicates K13a,b,c,d,f,g,j); not_hygiene_a..d,j: the full statement is false, one decided witness per violated conjunct (j: a template list with two ellipses - found through the case split of instantiate_agree, replayed on the real engine). STILL NOT proved: hygiene_partial (G prog -> M expansion alpha-equivalent to the ideal expansion S; kept as HygienePartial) and the full InstantiateSpec: missing are the instantiator agreement for sub-templates followed by an ellipsis and the success direction, the correspondence stored template (##-names, flags) vs stamped template together with the canon simulation for one instance (single-level hygiene), and the simulation between the ##-names of several instances and S's per-step stamps under G.b. Inside G the full statement rests on the differential run: real SteelMacro vs model (exact expansion text) and vs R7RS specification on generated pattern/form pairs, real Engine vs model vs specification (values that reveal which binding each identifier resolved to) on generated programs; any real != S inside G is a VIOLATION.",
     "level_note": "Trusted: Lean kernel, harness/driver/comparison, hand-written model (tied to /repo by the unit- and program-level correspondence on every run). The guard that decides is the Lean one (classify, printed by the driver per program); the python mirror is a static over-approximation, checked to contain the driver's class on every program, and is never used to excuse a disagreement. Modules, kernel (defmacro) macros, vectors/strings/quote patterns, set! and syntax-case are not modelled; canonRef (resolution after expansion, incl. the lost `unresolved` flag of the spelling `list`) is a model of compiler/passes/shadow.rs observed on the engine, not translated from it - K13k (findings/C13-K13k.txt: after inlining, the shadow pass skips the template's still-`unresolved` occurrence of a renamed parameter, which then refers to the caller's binder) is the one place where the real engine and this model differ: such programs are attributed to K13k by the class predicate (class a + a define whose parameter is spelled like a template free identifier + a binder of that spelling) AND the observed failure shape (the real value is the model's value with the tag of one such binder for another); a second, narrower attribution by failure shape: where the real engine rejects at compile time (inside procedure bodies) what the model's lazy value function only meets when it is evaluated - a leftover ellipsis token (K13j) or a template identifier renamed to a free ##x (K13a) - the driver reports the static defect of M's own expansion (`staticM`) and the case is attributed only if the class holds, staticM names that defect and the real engine raised an error. The module family `laterbody-*` (K13l, fixed in c3d59a73) must pass as real == S.",
 }
 
